@@ -314,6 +314,11 @@ def stepOp (st : DriverState) (toks : List String) : DriverState × String :=
     (match ids.toNat?, argBytes p, argBytes s with
      | some id, some p, some s => opRa st (id % 8) p s
      | _, _, _ => (st, "bad-op"))
+  -- "I": the harness passes phrase and setting from the block's own `input` / `setting` members; the answer is the same function of the request
+  | ["RA", ids, p, s, _] =>
+    (match ids.toNat?, argBytes p, argBytes s with
+     | some id, some p, some s => opRa st (id % 8) p s
+     | _, _, _ => (st, "bad-op"))
   | ["RAFREE", ids] =>
     (match ids.toNat? with
      | some id =>
